@@ -208,13 +208,13 @@ def count_level(run, tier, nprng):
                     o = comp.compute_chunk(x[p:p + k])
                     p += k
                     events.append({"a": "chunk", "c": k, "nret": int(o.shape[0]), "st": bool(comp.started),
-                                   "p": {"skip": int(comp._skip), "xRem": int(comp._x_rem), "yRem": int(comp._y_rem)}})
+                                   "p": common.si_priv(comp)})
                     if len(events) > 50:
                         break
                 if p < N:
                     o = comp.compute_chunk(x[p:])
                     events.append({"a": "chunk", "c": N - p, "nret": int(o.shape[0]), "st": bool(comp.started),
-                                   "p": {"skip": int(comp._skip), "xRem": int(comp._x_rem), "yRem": int(comp._y_rem)}})
+                                   "p": common.si_priv(comp)})
                 o = comp.finalize()
                 events.append({"a": "finalize", "c": 0, "nret": int(o.shape[0]), "st": bool(comp.started),
                                "p": {"skip": 0, "xRem": 0, "yRem": 0}})
